@@ -6,6 +6,7 @@ use crate::rng::Rng;
 use crate::world::*;
 use crate::{Args, RunStats};
 use serde_json::Value;
+use std::panic::{catch_unwind, AssertUnwindSafe};
 
 pub fn monitors_for(prop: &str) -> Vec<Box<dyn Monitor>> {
     match prop {
@@ -104,26 +105,109 @@ pub fn run(a: &Args, report: &mut Report, stats: &mut RunStats, _extra: &mut Val
     let mut rng = shard_rng(a);
     let prof = profile_for(&a.prop, &a.tier);
     let mut hist_no = 0u64;
-    while stats.steps < budget && report.violations.len() < 25 {
-        let hrng = rng.fork();
+    if a.prop == "C09" {
+        let n = a.budget.unwrap_or(if a.tier == "thorough" { 400 } else { 20 });
+        for i in 0..n {
+            let seed = rng.next();
+            let res = catch_unwind(AssertUnwindSafe(|| crate::acl::run_acl(seed, report, stats)));
+            if let Err(p) = res {
+                let text = p.downcast_ref::<String>().cloned().or_else(|| p.downcast_ref::<&str>().map(|s| s.to_string())).unwrap_or_default();
+                report.inconclusive(format!("harness panic in ACL history {}: {} at {}", i, text, crate::last_panic()));
+            }
+        }
+        return;
+    }
+    if a.prop == "C13" {
+        while stats.steps < budget && report.violations.len() < 60 {
+            let seed = rng.next();
+            let res = catch_unwind(AssertUnwindSafe(|| crate::twin::run_twin(seed, report, stats)));
+            if let Err(p) = res {
+                let text = p.downcast_ref::<String>().cloned().or_else(|| p.downcast_ref::<&str>().map(|s| s.to_string())).unwrap_or_default();
+                report.inconclusive(format!("harness panic in twin history: {} at {}", text, crate::last_panic()));
+                stats.steps += 50;
+            }
+        }
+        return;
+    }
+    let vamm_share: u64 = match a.prop.as_str() {
+        "C01" => 50,
+        "C17" => 35,
+        "C18" => 30,
+        _ => 0,
+    };
+    while stats.steps < budget && report.violations.len() < 60 {
+        let mut hrng = rng.fork();
         let tag = format!("seed={} shard={} hist={}", a.seed, a.shard, hist_no);
         hist_no += 1;
-        let mut g = Gen::new(hrng, prof.clone());
-        let cfg = rand_cfg(&mut g.rng, &prof);
-        let mons = monitors_for(&a.prop);
-        if mons.is_empty() {
+        if monitors_for(&a.prop).is_empty() {
             report.inconclusive(format!("no monitor registered for {}", a.prop));
             return;
         }
-        let mut h = History::new(&cfg, mons, report, tag);
-        g.run_history(&mut h, report);
-        stats.absorb(&h, if prof.faulted { "W-FAULT" } else { "W-ENG" });
+        // a panic inside the harness (not inside a contract call, those are caught at the call) loses
+        // this one history and is recorded as inconclusive; it is never a violation
+        let res = catch_unwind(AssertUnwindSafe(|| {
+            if a.prop == "C18" && hrng.chance(25, 100) {
+                let cfg = mon::feedw::feed_cfg(&mut hrng);
+                let mut h = History::new(&cfg, vec![Box::new(mon::feedw::FeedMon::default())], report, format!("W-PF {}", tag));
+                let n = hrng.range(20, 80);
+                mon::feedw::run_feed_history(&mut hrng, &mut h, report, n);
+                stats.absorb(&h, "W-PF");
+                return;
+            }
+            if vamm_share > 0 && hrng.chance(vamm_share, 100) {
+                let cfg = mon::vammw::vamm_cfg(&mut hrng);
+                let mons: Vec<Box<dyn Monitor>> = match a.prop.as_str() {
+                    "C17" => vec![Box::new(mon::vammw::VammLevel::default())],
+                    _ => monitors_for(&a.prop),
+                };
+                let mut h = History::new(&cfg, mons, report, tag.clone());
+                let n = hrng.range(40, 160);
+                mon::vammw::run_vamm_history(&mut hrng, &mut h, report, n);
+                stats.absorb(&h, "W-VAMM");
+                return;
+            }
+            let mut g = Gen::new(hrng.clone(), prof.clone());
+            let cfg = rand_cfg(&mut g.rng, &prof);
+            let mut h = History::new(&cfg, monitors_for(&a.prop), report, tag.clone());
+            g.run_history(&mut h, report);
+            stats.absorb(&h, if prof.faulted { "W-FAULT" } else { "W-ENG" });
+        }));
+        if let Err(p) = res {
+            let text = p.downcast_ref::<String>().cloned().or_else(|| p.downcast_ref::<&str>().map(|s| s.to_string())).unwrap_or_default();
+            report.inconclusive(format!("harness panic in a history: {} at {}", text, crate::last_panic()));
+            report.count("harness-panics");
+            stats.steps += 50; // guarantees termination
+        }
     }
 }
 
 pub fn replay(a: &Args, v: &Value, report: &mut Report, stats: &mut RunStats) {
+    if a.prop == "C13" {
+        let tag = v["seed_tag"].as_str().unwrap_or("");
+        if let Some(seed) = tag.strip_prefix("twin seed=").and_then(|t| t.parse::<u64>().ok()) {
+            crate::twin::run_twin(seed, report, stats);
+        } else {
+            report.inconclusive("replay file is not a twin history".into());
+        }
+        return;
+    }
+    if a.prop == "C09" {
+        let tag = v["seed_tag"].as_str().unwrap_or("");
+        if let Some(seed) = tag.strip_prefix("acl seed=").and_then(|t| t.parse::<u64>().ok()) {
+            crate::acl::run_acl(seed, report, stats);
+        } else {
+            report.inconclusive("replay file is not an ACL history".into());
+        }
+        return;
+    }
     let cfg: DeployCfg = serde_json::from_value(v["cfg"].clone()).expect("cfg");
-    let mons = monitors_for(&a.prop);
+    let mut mons = monitors_for(&a.prop);
+    if a.prop == "C18" && cfg.feed == FeedKind::Real && v["seed_tag"].as_str().map(|t| t.contains("W-PF")).unwrap_or(false) {
+        mons = vec![Box::new(mon::feedw::FeedMon::default())];
+    }
+    if a.prop == "C17" && cfg.vamm_engine_override.is_some() {
+        mons = vec![Box::new(mon::vammw::VammLevel::default())];
+    }
     let mut h = History::new(&cfg, mons, report, "replay".into());
     if let Some(ops) = v["ops"].as_array() {
         for o in ops {
